@@ -193,7 +193,12 @@ pub fn run_salt(scn: &Scenario, ctx: &mut Ctx) {
             "Z.WithLen" => {
                 let want = (st.arg(1) % 24) as usize;
                 ctx.checked();
-                match guarded(|| doc.add_salt_with_len(want)) {
+                let via_rng = st.arg(2) % 3;
+                match guarded(|| match via_rng {
+                    1 => doc.add_salt_with_len_using(want, &mut ExtremeRng { head: vec![], i: 0, tail: SimRng::new(st.arg(1) ^ 0x5a17) }),
+                    2 if want >= 8 => bc_components::Salt::new_with_len(want).map(|s| doc.add_salt_instance(s)).map_err(|e| anyhow::anyhow!("{}", e)),
+                    _ => doc.add_salt_with_len(want),
+                }) {
                     Ok(Ok(e)) => {
                         if want < 8 {
                             ctx.violate("C17.refusal", format!("add_salt_with_len({}) was not refused", want));
@@ -218,7 +223,7 @@ pub fn run_salt(scn: &Scenario, ctx: &mut Ctx) {
                 let lo_req = (st.arg(1) % 20) as usize;
                 let span = if st.arg(2) % 5 == 0 { 0 } else { (st.arg(2) % 40) as usize }; // single-length ranges included
                 ctx.checked();
-                match guarded(|| doc.add_salt_in_range(lo_req..=lo_req + span)) {
+                match guarded(|| if st.arg(3) % 2 == 1 { doc.add_salt_in_range_using(&(lo_req..=lo_req + span), &mut ExtremeRng { head: vec![], i: 0, tail: SimRng::new(st.arg(1) ^ 0x1a2b) }) } else { doc.add_salt_in_range(lo_req..=lo_req + span) }) {
                     Ok(Ok(e)) => {
                         if lo_req < 8 {
                             ctx.violate("C17.refusal", format!("add_salt_in_range({}..={}) was not refused", lo_req, lo_req + span));
@@ -394,8 +399,8 @@ pub fn generate_salt(property: &str, r: &mut SimRng, seed: u64) -> Scenario {
         match r.below(10) {
             0..=3 => scn.push("Z.AddSalt", &[ds(r), r.next(), 0, 0, pad]),
             4 => scn.push("Z.Extreme", &[ds(r), r.next(), 0, 0, pad]),
-            5..=6 => scn.push("Z.WithLen", &[ds(r), r.below(24), 0, 0, pad.min(300)]),
-            7 => scn.push("Z.InRange", &[ds(r), r.below(20), r.below(40), 0, pad.min(300)]),
+            5..=6 => scn.push("Z.WithLen", &[ds(r), r.below(24), r.below(3), 0, pad.min(300)]),
+            7 => scn.push("Z.InRange", &[ds(r), r.below(20), r.below(40), r.below(2), pad.min(300)]),
             _ => scn.push("Z.Salted", &[ds(r), ds(r), ds(r), r.below(300), pad.min(300)]),
         }
     }
@@ -538,6 +543,24 @@ pub fn run_expr(scn: &Scenario, ctx: &mut Ctx) {
                         Ok(Err(er)) => ctx.violate("C18.roundtrip", format!("parsing with the right expected function failed: {}", er)),
                         Err(pn) => ctx.violate_sig("C16.no-panic", format!("Expression::try_from panicked: {}", pn), pn),
                     }
+                    // wrongly tagged subject: the function's content without the function tag, or under another tag
+                    {
+                        ctx.fault("cbor.struct.retag-subject");
+                        let content: CBOR = match f.named_name() {
+                            Some(n) => CBOR::from(n),
+                            None => CBOR::from(st.arg(1) / 8 % 8),
+                        };
+                        for (what, subject) in [("without the function tag", Envelope::new(content.clone())), ("under the parameter tag", Envelope::new(CBOR::to_tagged_value(40007u64, content.clone())))] {
+                            let bad = rx.replace_subject(subject);
+                            ctx.checked();
+                            if let Ok(Ok(_)) = guarded(|| Expression::try_from(bad.clone())) {
+                                ctx.violate("C18.malformed", format!("an expression whose subject is the function's content {} was accepted", what));
+                            }
+                            if let Ok(Ok(_)) = guarded(|| Expression::try_from((bad.clone(), Some(&f)))) {
+                                ctx.violate("C18.malformed", format!("an expression whose subject is the function's content {} was accepted (expected function given)", what));
+                            }
+                        }
+                    }
                     if functions_differ {
                         ctx.fault("cbor.struct.replace-function");
                         if let Ok(Ok(_)) = guarded(|| Expression::try_from((rx.clone(), Some(&other_f)))) {
@@ -562,7 +585,12 @@ pub fn run_expr(scn: &Scenario, ctx: &mut Ctx) {
                     ctx.probe("whitespace-only-note");
                 }
                 let date = sim_date(clock, st.arg(4));
-                let mut rq = Request::new(f.clone(), arid(st.arg(2))).with_parameter(make_parameter(st.arg(2)), val.clone());
+                let mut rq = if st.arg(2) % 3 == 1 {
+                    // the same request built from a ready-made expression
+                    Request::new_with_body(Expression::new(f.clone()).with_parameter(make_parameter(st.arg(2)), val.clone()), arid(st.arg(2)))
+                } else {
+                    Request::new(f.clone(), arid(st.arg(2))).with_parameter(make_parameter(st.arg(2)), val.clone())
+                };
                 if st.arg(3) % 2 == 0 {
                     rq = rq.with_parameter(make_parameter(st.arg(2) + 1), val2.clone());
                 }
@@ -855,7 +883,15 @@ pub fn run_attach(scn: &Scenario, ctx: &mut Ctx) {
                     let mut e = base.clone();
                     for &ix in order {
                         let (pd, v, c) = contrib[ix];
-                        e = e.add_attachment(w.docs[pd].env.clone(), VENDORS[v], CONFORMS[c]);
+                        // either in one call, or by building the attachment assertion first
+                        e = if (ix + v) % 2 == 0 {
+                            e.add_attachment(w.docs[pd].env.clone(), VENDORS[v], CONFORMS[c])
+                        } else {
+                            match e.add_assertion_envelope(Envelope::new_attachment(w.docs[pd].env.clone(), VENDORS[v], CONFORMS[c])) {
+                                Ok(x) => x,
+                                Err(_) => e, // (the query oracle below then misses this attachment)
+                            }
+                        };
                     }
                     e
                 };
@@ -1117,6 +1153,33 @@ pub fn run_attach(scn: &Scenario, ctx: &mut Ctx) {
                         }
                         if rx2.types().len() != mask.count_ones() as usize + 1 {
                             ctx.violate("C19.types", "types() does not count a node-shaped type once".to_string());
+                        }
+                    }
+                }
+                // the two forms of the question - by known value and by envelope - are one question: they agree, also
+                // after a holder has elided (or otherwise obscured) the object of one 'isA' assertion
+                {
+                    let added_kv: Vec<usize> = (0..4usize).filter(|b| mask & (1 << b) != 0).collect();
+                    let hidden = if let Some(&b) = added_kv.first() {
+                        let target = Envelope::new(kvs[b].clone());
+                        let act = match st.arg(3) % 3 {
+                            0 => ObscureAction::Elide,
+                            1 => ObscureAction::Compress,
+                            _ => ObscureAction::Encrypt(sym_key(1)),
+                        };
+                        ctx.probe("type-object-obscured");
+                        transmit(ctx, &rx.elide_removing_target_with_action(&target, &act))
+                    } else {
+                        None
+                    };
+                    for doc in [Some(rx.clone()), hidden].into_iter().flatten() {
+                        for b in 0..4usize {
+                            ctx.checked();
+                            let (by_value, by_envelope) = (doc.has_type(&kvs[b]), doc.has_type_envelope(kvs[b].clone()));
+                            let (cv, ce) = (doc.check_type(&kvs[b]).is_ok(), doc.check_type_envelope(kvs[b].clone()).is_ok());
+                            if by_value != by_envelope || cv != ce || by_value != cv {
+                                ctx.violate("C19.types", format!("the type checks disagree about known-value type #{}: has_type={} has_type_envelope={} check_type={} check_type_envelope={}", b, by_value, by_envelope, cv, ce));
+                            }
                         }
                     }
                 }
